@@ -8,6 +8,11 @@ Monitors
   malform  malformed fragment sequences injected into the receiving host between good PDUs:
            only the affected PDU is lost, the next good PDU arrives intact
   iso      Host.send_iso_sdu fragments: length bound, pb flags, SDU length, sequence number
+  hostwire a real Host initialised by its own reset() against a real Controller whose three pools
+           (BR/EDR ACL, LE ACL or shared, ISO; v2/v1 buffer-size commands) have different data
+           lengths, data side played by hand (vlib/hostwire.py): every emitted ACL / ISO packet
+           fits the length advertised for the pool of ITS link, markers, reassembly per link,
+           also after a second reset with another geometry
 """
 from __future__ import annotations
 
@@ -22,12 +27,18 @@ ID = 'C05'
 LEVEL = 'exploration'
 RULE = ('seeded cases over (transport, ACL length and buffer count per controller, PDU size sequence, delay); '
         'a transfer is non-trivial when at least one PDU needed >= 2 fragments; malformed cases are one per '
-        '(malformation kind, geometry); ISO cases one per (packet length, SDU size list); distinct = distinct tuple')
+        '(malformation kind, geometry); ISO cases one per (packet length, SDU size list); distinct = distinct tuple. '
+        'hostwire histories (Host.reset() against a Controller with three different pools, hand-played BR/EDR, LE, '
+        'CIS and BIS links with PDU/SDU sizes around each pool\'s length, optionally a second reset with another '
+        'geometry) are non-trivial when a unit needed >= 2 fragments; distinct = distinct (geometries, operations)')
 ASSUMPTIONS = [
     'the virtual link is lossless',
     'an exception escaping Host.on_packet for a malformed fragment is tolerated (counted) as long as the next '
     'well-formed PDU is delivered intact',
     'a zero-length ISO SDU producing no packet is counted, not judged (the statement speaks of emitted fragments)',
+    'hostwire: the maximum data length of a link is the one the controller wrote into its (LE_)Read_Buffer_Size[_V2] '
+    'Command Complete for the pool of that link (LE link -> LE pool unless its length/count is zero, then the BR/EDR '
+    'pool; CIS/BIS -> ISO pool); every link is gone before Host.reset() is called a second time',
 ]
 MIN_EVENTS = {
     'quick': {'fragments_checked': 35000, 'pdus_delivered': 5000, 'malformed_injected': 1200, 'iso_fragments': 20000,
@@ -50,6 +61,8 @@ def plan(tier, seed):
         cases.append({'kind': 'malformed', 'seed': seed * 1000003 + i})
     for i in range(400 if tier == 'quick' else 3200):
         cases.append({'kind': 'iso', 'seed': seed * 1000003 + i})
+    for i in range(64 if tier == 'quick' else 640):
+        cases.append({'kind': 'hostwire', 'seed': seed * 1000003 + i, 'histories': 20 if tier == 'quick' else 40})
     return cases
 
 
@@ -361,7 +374,193 @@ def iso_case(case, r: R):
     return go()
 
 
+# =============================================================================
+# hostwire: fragments against the data length of the pool the link belongs to
+# =============================================================================
+class _FragState:
+    __slots__ = ('k', 'ref', 'in_pdu', 'cur', 'lost', 'rebuilt')
+
+    def __init__(self):
+        from vlib import rig as vrig
+        self.k = 0              # index of the next submitted unit expected to start
+        self.ref = vrig.RefReassembler()
+        self.in_pdu = False
+        self.cur = None         # ISO: bytes of the SDU being rebuilt
+        self.lost = False       # framing lost on this link: reported once, not judged further
+        self.rebuilt = 0
+
+
+class HostwireFragJudge:
+    def __init__(self, r: R):
+        self.r = r
+
+    def on_reset(self, sc): pass
+    def on_settle(self, sc, after): pass
+
+    def on_stray(self, sc, pk):
+        self.r.ev('hostwire_stray_not_judged_here')
+
+    def on_exception(self, sc, what, e):
+        self.r.bad(f'hostwire/raises/{what}', f'{type(e).__name__}: {e}; {sc.context()}')
+
+    def on_emit(self, sc, pk):
+        r, link = self.r, pk.link
+        pool = link.pool
+        L = pool.length
+        phase = '' if sc.phase < 2 else '/after-second-reset'
+        st = link.state
+        if st is None:
+            st = link.state = _FragState()
+        r.ev('hostwire_fragments_checked')
+        r.ev(f'hostwire_fragments_{link.kind}')
+        if sc.phase >= 2:
+            r.ev('hostwire_fragments_after_second_reset')
+        if len(pk.data) == L:
+            r.ev('hostwire_fragments_at_length_limit')
+        r.ev('oracle_evals', 3)
+        if pk.type != (5 if link.is_iso else 2):
+            r.bad(f'hostwire/packet-type/{pool.name}', f'{pk.brief()} on {link!r}; {sc.context()}')
+            st.lost = True
+            return
+        if pk.declared != len(pk.data):
+            r.bad(f'hostwire/length-field/{pool.name}', f'header says {pk.declared}, packet carries {len(pk.data)}')
+        if len(pk.data) > L:
+            r.bad(f'hostwire/fragment-too-long/{pool.name}{phase}',
+                  f'{pk.brief()} on {link!r}: {len(pk.data)} data bytes > the {L} the controller advertised for pool '
+                  f'{pool.name} (pools: { {p.name: (p.length, p.count) for p in sc.pools.values()} }); {sc.context(12)}')
+        if st.lost:
+            return
+        if link.is_iso:
+            self._iso(sc, pk, link, st)
+        else:
+            self._acl(sc, pk, link, st)
+
+    def _acl(self, sc, pk, link, st):
+        r, pool = self.r, link.pool
+        pb = pk.pb
+        r.ev('oracle_evals', 2)
+        if pk.bc != 0:
+            r.bad(f'hostwire/bc-flag/{pool.name}', f'host->controller fragment with broadcast flag {pk.bc}')
+        if not st.in_pdu:
+            if pb != 0:
+                r.bad(f'hostwire/first-marker/{pool.name}', f'first fragment of a PDU carries pb={pb:02b}, expected 00; '
+                                                            f'{sc.context(12)}')
+                pb = 0
+        else:
+            if pb != 1:
+                r.bad(f'hostwire/continuation-marker/{pool.name}', f'later fragment carries pb={pb:02b}, expected 01; '
+                                                                   f'{sc.context(12)}')
+                pb = 1
+            elif len(pk.data) == 0:
+                r.ev('hostwire_empty_continuation_fragments')
+        for cid, payload in st.ref.feed(link, pb, pk.data):
+            r.ev('oracle_evals')
+            r.ev('hostwire_pdus_rebuilt')
+            want = link.units[st.k] if st.k < len(link.units) else None
+            if want != (cid, payload):
+                r.bad(f'hostwire/reassembly-mismatch/{pool.name}',
+                      f'{link!r}: fragments rebuild PDU #{st.k} as cid={cid:#x} {len(payload)} bytes, submitted was '
+                      f'{"nothing" if want is None else (hex(want[0]), len(want[1]))}; {sc.context(12)}')
+                st.lost = True
+            st.k += 1
+        st.in_pdu = link in st.ref.buf
+
+    def _iso(self, sc, pk, link, st):
+        r = self.r
+        r.ev('oracle_evals', 2)
+        first = st.cur is None
+        if first != (pk.pb in (0b00, 0b10)):
+            r.bad('hostwire/iso-pb-flag', f'{pk.brief()} on {link!r}: {"first" if first else "later"} fragment of an SDU '
+                                          f'carries pb={pk.pb:02b}; {sc.context(12)}')
+            st.lost = True
+            return
+        if first:
+            # an empty SDU may legitimately have produced no packet at all
+            while st.k < len(link.units) and not link.units[st.k] and pk.sdu_len:
+                st.k += 1
+                r.ev('hostwire_iso_empty_sdu_no_packet')
+            if st.k >= len(link.units):
+                r.bad('hostwire/reassembly-mismatch/iso', f'{link!r}: an SDU starts although all {len(link.units)} '
+                                                          f'submitted ones were seen; {sc.context(12)}')
+                st.lost = True
+                return
+            r.ev('oracle_evals', 3)
+            if pk.psn is None:
+                r.bad('hostwire/iso-header', f'{pk.brief()} on {link!r}: first fragment too short for the SDU header')
+                st.lost = True
+                return
+            if pk.psn != st.k & 0xFFFF:
+                r.bad('hostwire/iso-sequence-number', f'{link!r}: packet sequence number {pk.psn} on SDU #{st.k} of '
+                                                      f'this link; {sc.context(12)}')
+            if pk.sdu_len != len(link.units[st.k]):
+                r.bad('hostwire/iso-sdu-length', f'{link!r}: ISO_SDU_Length {pk.sdu_len}, SDU has '
+                                                 f'{len(link.units[st.k])}; {sc.context(12)}')
+            if pk.status_flag:
+                r.bad('hostwire/iso-status-flag', f'host-sent packet status flag {pk.status_flag}')
+            st.cur = bytearray()
+        st.cur += pk.payload
+        want = link.units[st.k]
+        last = len(st.cur) >= len(want)
+        want_pb = (0b10 if last else 0b00) if first else (0b11 if last else 0b01)
+        if pk.pb != want_pb:
+            r.bad('hostwire/iso-pb-flag', f'{pk.brief()} on {link!r}: {len(st.cur)}/{len(want)} SDU bytes seen, '
+                                          f'expected pb={want_pb:02b}; {sc.context(12)}')
+        if last:
+            r.ev('oracle_evals')
+            r.ev('hostwire_sdus_rebuilt')
+            if bytes(st.cur) != want:
+                r.bad('hostwire/reassembly-mismatch/iso', f'{link!r}: fragments rebuild SDU #{st.k} as {len(st.cur)} '
+                                                          f'bytes, submitted {len(want)}; {sc.context(12)}')
+                st.lost = True
+            st.k += 1
+            st.cur = None
+
+    def on_link_closed(self, sc, link):
+        """A discarded link may stop anywhere, but what it emitted is a prefix of what was submitted;
+        a link that lived to the end (every buffer returned) emitted everything."""
+        r, st = self.r, link.state
+        if st is None:
+            st = link.state = _FragState()
+        if st.lost:
+            return
+        r.ev('oracle_evals')
+        if link.is_iso:
+            partial = bytes(st.cur) if st.cur is not None else b''
+            want = link.units[st.k] if st.k < len(link.units) else b''
+            rest = any(link.units[st.k:]) or st.cur is not None
+        else:
+            partial = bytes(st.ref.buf.get(link, b''))
+            want = b''
+            if st.k < len(link.units):
+                cid, payload = link.units[st.k]
+                want = l2(cid, payload)
+            rest = st.k < len(link.units)
+        if partial != want[:len(partial)]:
+            r.bad(f'hostwire/reassembly-mismatch/{link.pool.name}',
+                  f'{link!r}: the unfinished unit #{st.k} does not start like the submitted one; {sc.context(12)}')
+        elif link.alive and rest:
+            r.bad(f'hostwire/reassembly-incomplete/{link.pool.name}',
+                  f'{link!r}: units from #{st.k} on never (completely) emitted although every buffer was returned; '
+                  f'{sc.context(12)}')
+
+    def on_finish(self, sc): pass
+
+
+async def hostwire_case(case, r: R):
+    from vlib import hostwire
+    rng = random.Random(case['seed'] ^ 0x5057)
+    sc = None
+    for _ in range(case['histories']):
+        sc = await hostwire.run_history(rng, r, HostwireFragJudge(r))
+        if sc.multi_fragment_units:
+            r.sig('hostwire', *sc.signature())
+        r.evals()
+    r.sample = sc.summary()
+
+
 def run_case(case, r: R):
+    if case['kind'] == 'hostwire':
+        return hostwire_case(case, r)
     if case['kind'] == 'xfer':
         return xfer(case, r)
     if case['kind'] == 'malformed':
@@ -372,9 +571,13 @@ def run_case(case, r: R):
 LEVEL_TEXT = ('Fragment-level oracle (length bound, start/continuation markers, independent reassembly) over the '
               "sender's HCI log and exact delivery at the receiver for ~480 (quick) / ~4800 (thorough) generated "
               'geometries and PDU size sequences incl. 65531..65535-byte payloads, LE and BR/EDR; 9 kinds of '
-              'malformed fragment sequences injected between good PDUs; ISO SDU fragmentation checked field by field. '
+              'malformed fragment sequences injected between good PDUs; ISO SDU fragmentation checked field by field; '
+              '~10^3 (quick) / 2.5x10^4 (thorough) histories of a real Host reset against a Controller whose BR/EDR, LE '
+              '(dedicated or shared) and ISO pools have different lengths, with hand-played BR/EDR / LE / CIS / BIS links '
+              'and a second reset with another geometry: every emitted fragment against the length of its own pool. '
               'Sampling with boundary-biased sizes, not proof.')
 LEVEL_NOTE = ('Trusted: vlib/rig.py taps and RefReassembler (20 lines), the hand-built ACL/L2CAP/ISO headers in '
-              'checks/c05.py, virtual-time loop. ISO is driven through Host.send_iso_sdu with a capture queue, not '
+              'checks/c05.py, the ledger and hand-written HCI events of vlib/hostwire.py, virtual-time loop. In the '
+              'iso cases ISO is driven through Host.send_iso_sdu with a capture queue, not '
               'through a CIS on the virtual controller.')
 TECHNIQUE = 'runtime monitoring: offline fragment checker over tapped HCI log + delivery equality + malformed-sequence injection'
